@@ -132,13 +132,14 @@ def ReprText.render (g : ReprText) : Str :=
     paths inside the domain where C07 proves the WBEM URI round trip). -/
 structure CodecLaws (c : Codec) where
   realOk : c.F → Prop
-  /-- `str(x)` of a finite float has the repr shape -/
-  realShape : ∀ x, realOk x → ∃ g : ReprText, g.ok = true ∧ c.realStr x = g.render
+  /-- `str(x)` of a finite float has the repr shape (given as data, so that the next law can refer to it) -/
+  realShape : c.F → ReprText
+  realShapeOk : ∀ x, realOk x → (realShape x).ok = true ∧ c.realStr x = (realShape x).render
   /-- `float(repr(x)) == x` -/
   realRt : ∀ x, realOk x → c.realParse (c.realStr x) = some x
-  /-- `float("<int>.0e<exp>") == float("<int>e<exp>")` -/
-  realDot0 : ∀ g : ReprText, g.ok = true → g.frac = none →
-    c.realParse ({ g with frac := some [48] } : ReprText).render = c.realParse g.render
+  /-- `float("<int>.0e<exp>") == float("<int>e<exp>")` for the repr texts without a fraction -/
+  realDot0 : ∀ x, realOk x → (realShape x).frac = none →
+    c.realParse ({ realShape x with frac := some [48] } : ReprText).render = c.realParse (realShape x).render
   dtOk : c.D → Prop
   /-- `CIMDateTime(str(d)) == d` (C06) -/
   dtRt : ∀ d, dtOk d → c.dtParse (c.dtStr d) = some d
